@@ -7,11 +7,17 @@ import (
 )
 
 // cmdExplore prints raw rule inputs for triage while developing the tables.
+var exploreExtra = map[string]func(p *Prog){}
+
 func cmdExplore(args []string) int {
 	p, err := LoadProg(nil, "")
 	if err != nil {
 		fmt.Println(err)
 		return 2
+	}
+	if f, ok := exploreExtra[args[0]]; ok {
+		f(p)
+		return 0
 	}
 	switch args[0] {
 	case "errs":
@@ -65,4 +71,46 @@ func cmdExplore(args []string) int {
 		}
 	}
 	return 0
+}
+
+func init() {
+	exploreExtra["cats"] = func(p *Prog) {
+		t := extractCheckTables(p)
+		for _, sn := range []string{"V1Beta1Spec", "V1Spec", "V2Spec"} {
+			st := t.Specs[sn]
+			cat := map[string]map[string]bool{}
+			for _, r := range st.Rows {
+				if r.Builder == nil {
+					continue
+				}
+				for _, c := range r.Categories {
+					if cat[c] == nil {
+						cat[c] = map[string]bool{}
+					}
+					cat[c][r.Builder.ID] = true
+				}
+			}
+			chain := []string{"FILE", "PACKAGE", "WIRE_JSON", "WIRE"}
+			for i := 0; i+1 < len(chain); i++ {
+				var only []string
+				for id := range cat[chain[i+1]] {
+					if !cat[chain[i]][id] {
+						only = append(only, id)
+					}
+				}
+				sort.Strings(only)
+				fmt.Println(sn, chain[i+1], "not in", chain[i], only)
+			}
+			for _, ch := range [][]string{{"MINIMAL", "BASIC"}, {"BASIC", "STANDARD"}, {"BASIC", "DEFAULT"}, {"MINIMAL", "DEFAULT"}} {
+				var only []string
+				for id := range cat[ch[0]] {
+					if !cat[ch[1]][id] {
+						only = append(only, id)
+					}
+				}
+				fmt.Println(sn, ch[0], "not in", ch[1], only)
+			}
+			fmt.Println(sn, "categories:", sortedKeys(cat))
+		}
+	}
 }
